@@ -495,6 +495,7 @@ pub fn self_test() -> Result<(), String> {
             msg: msg.to_string(),
             debug: String::new(),
             has_source: false,
+            alt: String::new(),
         })
     };
     let mismatch_text = "The request signature we calculated does not match the signature you provided. Check your AWS Secret Access Key and signing method. Consult the service documentation for details.";
